@@ -122,6 +122,9 @@ def ghost_specs():
     from .models import RNDF
     S["DDF"] = GhostSpec("DDF", lambda e, st, a: VInt(DDF(e.to_real(a[0]), e.to_real(a[1]), e.to_real(a[2]), smt.som(e.to_int(a[3])))))
     S["rndf"] = GhostSpec("rndf", lambda e, st, a: VInt(RNDF(e.to_real(a[0]))))
+    # whole-file sample sequence of a PSRFITS file (C18): time-major, descending frequency, calibrated
+    PXF = z3.Function("PX", INT, REAL)
+    S["PX"] = GhostSpec("PX", lambda e, st, a: VReal(PXF(smt.som(e.to_int(a[0])))))
     S["dec16"] = GhostSpec("dec16", lambda e, st, a: VReal(DEC16(a[0].t, a[1].t)))
     S["dec32"] = GhostSpec("dec32", lambda e, st, a: VReal(DEC32(a[0].t, a[1].t, a[2].t, a[3].t)))
     return S
